@@ -1,7 +1,7 @@
 use std::fmt::Write;
 use std::path::{Path, PathBuf};
 
-use crate::checker::CheckResult;
+use crate::checker::{CheckResult, ViolationCategory};
 use crate::error::Result;
 
 // Re-export for use by stats HTML formatter
@@ -488,7 +488,13 @@ impl OutputFormatter for HtmlFormatter {
         let mut aggregate = AggregateStats::default();
         let (passed, warnings, failed, grandfathered) =
             results.iter().fold((0, 0, 0, 0), |(p, w, f, g), r| {
-                aggregate.accumulate(r.raw_stats());
+                // Structure results carry a synthetic count (files/dirs/depth), not line statistics
+                if !matches!(
+                    r.violation_category(),
+                    Some(ViolationCategory::Structure { .. })
+                ) {
+                    aggregate.accumulate(r.raw_stats());
+                }
                 match r {
                     CheckResult::Passed { .. } => (p + 1, w, f, g),
                     CheckResult::Warning { .. } => (p, w + 1, f, g),
